@@ -610,7 +610,7 @@ def k3(groups, tag):
             body.append("Definition a%d : ast := %s." % (k, ct.ast(ast)))
             body.append("Definition c%d : list (N * k3_kind * N * string * string) := [%s]." % (k, ";\n".join(rows)))
             evals.append("k3_run2 a%d c%d" % (k, k))
-        body.append("Eval vm_compute in (%s)." % " ++ ".join(evals))
+        body.append("Eval vm_compute in ((%s)%%list)." % " ++ ".join(evals))
         out = coq_eval("k3_%s_%d" % (tag, si), "\n".join(body))
         return [local[n] for n in parse_nums(out)]
 
